@@ -232,6 +232,15 @@ func (w *world) genLimit(price uint64) uint64 {
 	}
 }
 
+func (w *world) balanceOf(a common.Address) uint64 {
+	raw, err := w.k.Store().GetCacheDB().Get(ongKey(a)[1:])
+	if err != nil {
+		return 0
+	}
+	v, _ := balanceU64(raw)
+	return v
+}
+
 func (w *world) ongOf(i int) uint64 {
 	raw, err := w.k.Store().GetCacheDB().Get(ongKey(w.users[i].Address)[1:])
 	if err != nil {
@@ -335,8 +344,20 @@ func (w *world) genTx() (*types.Transaction, *txDesc, error) {
 		b := vm.NewParamsBuilder(new(bytes.Buffer))
 		b.EmitPushByteArray(make([]byte, d.N))
 		b.Emit(vm.DROP)
-		if c.Intn(3) == 0 {
+		switch c.Intn(4) {
+		case 0:
 			b.Emit(vm.THROW)
+		case 1: // endless loop: with an underflowed gas allowance it would never return
+			b.Emit(vm.JMP)
+			b.Emit(0)
+			b.Emit(0)
+			d.Flag = true
+			if d.Limit > 3000000 {
+				d.Limit = 60000 + uint64(c.Intn(300000))
+			}
+		}
+		if c.Intn(3) == 0 { // code-length gas > 0 together with a price whose products overflow
+			d.Price = []uint64{two64div20000 + 1, 1 << 63, ^uint64(0), 1 << 59, two64div20000 - 1, 1 << 50}[c.Intn(6)]
 		}
 		mtx = w.k.InvokeTx(b.ToArray(), d.Price, d.Limit)
 	case k < 20: // random bytes
